@@ -1003,6 +1003,18 @@ class PEval:
                     x -= 1 << (8 * base.esize)
                 base.items[idx] = x
                 return
+        if s0.get('kind') == 'CXXMemberCallExpr' and call_name(s0) in ('back', 'front') and isinstance(val, int):
+            base = self.ev(member_call_object(s0), env, depth)
+            if isinstance(base, Str):
+                if not base.b:
+                    raise Fault('%s() of an empty string' % call_name(s0))
+                base.b[-1 if call_name(s0) == 'back' else 0] = val & 0xFF
+                return
+            if isinstance(base, VecL):
+                if not base.items:
+                    raise Fault('%s() of an empty vector' % call_name(s0))
+                base.items[-1 if call_name(s0) == 'back' else 0] = val
+                return
         raise Undecided('assignment to `%s`' % src_text(target, 40))
 
     def binop(self, n, env, depth):
@@ -1906,10 +1918,10 @@ class PEval:
             fill = vals[1] if len(vals) > 1 else 0
             s.b = s.b[:k] + bytearray([fill & 0xFF]) * max(0, k - len(s.b))
             return None
-        if name == 'back':
-            return self.wrap(s.b[-1], dtype(n))
-        if name == 'front':
-            return self.wrap(s.b[0], dtype(n))
+        if name in ('back', 'front'):
+            if not s.b:
+                raise Fault('%s() of an empty string' % name)
+            return self.wrap(s.b[-1 if name == 'back' else 0], dtype(n))
         if name == 'at':
             if 0 <= vals[0] < len(s.b):
                 return self.wrap(s.b[vals[0]], dtype(n))
